@@ -899,7 +899,7 @@ def main(ck: Check):
         "loops do not terminate otherwise",
         "OrderSword/AdeleOrderComponent is chunk dependent (known finding F10): only orderSword_add_partial is proved",
     ]
-    ck.finish("proof+exploration",
+    ck.finish("proof",
               trusted_base=["Lean 4.33 kernel", "axioms ⊆ {propext, Classical.choice, Quot.sound}",
                             "hand-written model Simaple/Model/Entity.lean tied to the entities by exact comparison of "
                             "every method on seeded grid states", "float arithmetic is exact on the 2^-10 ms grid",
